@@ -71,7 +71,8 @@ Next ==
         /\ bad' = bad \cup (IF j.miss THEN {} ELSE IF ~j.ok THEN {<<e.scn, e.i, "result">>} ELSE {})
                       \cup (IF pers THEN {} ELSE {<<e.scn, e.i, "persist">>})
         /\ herr' = herr \cup (IF j.miss THEN {<<e.scn, e.i>>} ELSE {})
-        /\ tainted' = (j.miss \/ ~j.ok \/ ~pers \/ j.unspec)
+        \* an unspecified outcome only spoils the rest of the scenario if it yielded a family member
+        /\ tainted' = (j.miss \/ ~j.ok \/ ~pers \/ (j.unspec /\ Len(j.newf) + Len(j.newg) > 0))
         /\ frames' = Fr \o j.newf
         /\ digs' = D \o j.newd
         /\ groupers' = Gr \o j.newg
